@@ -193,10 +193,10 @@ class MRQPolicy(LossCase):
 
     def build(self, seed):
         pwe = zoo.encoder_policy(D, A, seed)
-        return (pwe.policy, zoo.double_q(1, 1, (2,), seed, ln=True), pwe.encoder)
+        return (pwe.policy, zoo.mrq_q(seed), pwe.encoder)
 
     def data(self, B, rng):
-        return (f32(rng.normal(size=(B, 2))), 0.01)
+        return (f32(rng.normal(size=(B, zoo.W))), 0.01)
 
     def hyps(self, d):
         return []
@@ -289,6 +289,46 @@ def _ppo(rep, sess, tier, seed):
             e.obligation(f"zero-policy-gradient-for-sample{k}-clipped-on-its-favoured-side",
                          lambda i, o, k=k: S.SA(o[1])[k].eq(0),
                          extra_hyps=[((r_k > 1 + clip) & (adv[k] > 0)) | ((r_k < 1 - clip) & (adv[k] < 0))])
+
+
+def _ppo_update(rep, sess, tier, seed):
+    """update_ppo over several epochs: every epoch optimises the clipped surrogate against the log-probabilities of the
+    ROLLOUT policy (those before the first step) - otherwise the ratio restarts at 1 each epoch and the clip, hence
+    'zero policy gradient to samples clipped on their favoured side', never engages.  The real routine and a reference
+    that calls the real ppo_loss with the rollout log-probabilities held fixed are traced side by side (SGD, free actor)."""
+    import optax
+    from rl_blox.algorithm import ppo
+    N, LRP = 3, 0.5
+    rng = np.random.default_rng(seed)
+    for epochs in ((2,) if tier == "quick" else (2, 3)):
+        actor, critic = FreeActor(N), FreeNet((N, 1))
+        gdef, st = nnx.split((actor, critic))
+        obs, act = jnp.zeros((N, D)), jnp.zeros((N, 1))
+
+        def f(state, reward, term, next_value, gdef=gdef, epochs=epochs):
+            state0 = jax.tree_util.tree_map(lambda x: x + 0, state)  # nnx.merge shares Variables with the state it is given
+            a, c = nnx.merge(gdef, state)
+            ppo.update_ppo(a, c, nnx.Optimizer(a, optax.sgd(LRP), wrt=nnx.Param), nnx.Optimizer(c, optax.sgd(LRP), wrt=nnx.Param),
+                           obs, act, reward, term, next_value, epochs)
+            real = (a.logp.value + 0, c.table.value + 0)
+            a2, c2 = nnx.merge(gdef, state0)
+            advs, rets = ppo.compute_gae(reward, c2(obs).flatten(), next_value, term)
+            old = a2.log_probability(obs, act) + 0.0  # rollout log-probabilities, fixed for every epoch
+            for _ in range(epochs):
+                ga, gc = nnx.grad(ppo.ppo_loss, argnums=(0, 1))(a2, c2, old, obs, act, advs, rets)
+                a2.logp.value = a2.logp.value - LRP * ga.logp.value
+                a2.ent.value = a2.ent.value - LRP * ga.ent.value
+                c2.table.value = c2.table.value - LRP * gc.table.value
+            return real, (a2.logp.value, c2.table.value)
+        ex = (st, f32(rng.normal(size=N)), jnp.zeros(N), f32(rng.normal(size=N)))
+        # seeded rollout with large advantages: the first step pushes ratios out of the clip range
+        ex_big = (st, f32(rng.normal(size=N) * 8), jnp.zeros(N), f32(rng.normal(size=N)))
+        e = E1(rep, sess, f, ex, f"update_ppo[epochs={epochs}]", validate_sets=[ex, ex_big])
+        e.add_hyp(*[(x.eq(0) | x.eq(1)) for x in [S.SA(e.ins[2])]])
+        e.obligation("actor-after-all-epochs=SGD-on-ppo_loss-against-the-rollout-log-probabilities",
+                     lambda i, o: S.close(S.SA(o[0][0]), S.SA(o[1][0])), site="ppo.update_ppo:old-log-probabilities-are-those-of-the-rollout-policy", split=True)
+        e.obligation("critic-after-all-epochs=SGD-on-ppo_loss", lambda i, o: S.close(S.SA(o[0][1]), S.SA(o[1][1])),
+                     site="ppo.update_ppo:critic-follows-the-value-term", split=True)
 
 
 class _ShapeCritic:
@@ -414,6 +454,7 @@ def main(tier, seed):
         run_case(rep, sess, c, tier, seed)
     _pg_gradients(rep, sess, tier, seed)
     _ppo(rep, sess, tier, seed)
+    _ppo_update(rep, sess, tier, seed)
     _temperature(rep, sess, tier, seed)
     if tier == "thorough":
         bad = sess.cross_check()
